@@ -387,8 +387,15 @@ fn run_input(c: &Case, input: &str, both_states: bool, flip: bool, out: &mut Out
 }
 
 fn run_case(c: &Case, idx: usize, thorough: bool, rng: &mut Rng, out: &mut Out) {
-    let (k, l) = if thorough { (4, 4) } else { (3, 3) };
-    let alpha = alphabet(c.lits, k);
+    let alpha = alphabet(c.lits, if thorough { 4 } else { 3 });
+    // length bound in chars: deeper for the small alphabets
+    let l = match (thorough, alpha.len()) {
+        (false, 0..=2) => 4,
+        (false, _) => 3,
+        (true, 0..=2) => 6,
+        (true, 3) => 5,
+        (true, _) => 4,
+    };
     for (j, s) in all_strings(&alpha, l).iter().enumerate() {
         run_input(c, s, thorough || s.chars().count() <= 2, (idx + j) % 2 == 1, out);
     }
